@@ -1,5 +1,30 @@
-(* C06 — property theorems (bootstrap stage; see DESIGN.md section 6). *)
-From Verif Require Import Inflate.
-Theorem C06_spec_inflater_runs : status (inflate [] [3;0]) = Done /\ out (inflate [] [3;0]) = [].
-Proof. vm_compute. split; reflexivity. Qed.
-Print Assumptions C06_spec_inflater_runs.
+(* C06 — property theorems.  Model: RModel/Containers.v (RFC 1952 / RFC 1950 framing with Go's rules, CRC-32 and Adler-32 written out) over the reference inflater; compared with fastgo's gzip/zlib Readers and with the standard library's on every run.
+   Only statements, each closed by `exact`, followed by Print Assumptions. *)
+From Verif Require Import ContainersSpec ContainersProofs InflateMono.
+Open Scope N_scope.
+
+(* every representable header is read back exactly *)
+Theorem C06_gz_header_roundtrip : gz_header_roundtrip_statement.
+Proof. exact gz_header_roundtrip. Qed.
+Print Assumptions C06_gz_header_roundtrip.
+
+(* a member = header, a complete DEFLATE stream for the payload, trailer (CRC-32, length mod 2^32):
+   it is read back as that header and payload, then io.EOF, leaving what follows untouched *)
+Theorem C06_gz_member_roundtrip : forall h body payload rest, ghdr_ok h -> body_for body payload ->
+  gz_read false (gz_member h body payload ++ rest) = mkgres payload CEOF rest [h] false.
+Proof. exact (gz_member_roundtrip inflate_mono). Qed.
+Print Assumptions C06_gz_member_roundtrip.
+
+(* zlib: CMF/FLG, optional DICTID, stream, Adler-32 big-endian *)
+Theorem C06_zl_roundtrip : forall lv dict body payload rest, lv < 4 ->
+  status (inflate (match dict with Some d => d | None => [] end) body) = Done ->
+  out (inflate (match dict with Some d => d | None => [] end) body) = payload ->
+  (bitpos (inflate (match dict with Some d => d | None => [] end) body) + 7) / 8 = N.of_nat (length body) ->
+  zl_read dict (zl_stream lv dict body payload ++ rest) = mkgres payload CEOF rest [] false.
+Proof. exact (zl_roundtrip inflate_mono). Qed.
+Print Assumptions C06_zl_roundtrip.
+
+Theorem C06_checksum_width : checksum_width_statement.
+Proof. exact checksum_width. Qed.
+Print Assumptions C06_checksum_width.
+(* the DEFLATE body written by fastgo's writers is a complete stream for the payload: C01 *)
